@@ -20,7 +20,7 @@ func init() {
 	core.Register(&core.Check{
 		ID:    "C16",
 		Level: "model_checking",
-		Rule: "base programs with a mark at every position where the grammar permits a line break; every mark x 3 padding kinds (blank lines, one long comment line, mixed spaces/tabs/comment/blank lines) x sizes {0..8} U [1016,1032] U [2040,2056] U {3000,4095,4096,4097,5000,8192} " +
+		Rule: "base programs with a mark at every position where the grammar permits a line break; every mark x 3 padding kinds (blank lines, one long comment line, mixed spaces/tabs/comment/blank lines) x sizes {0..8} U [1016,1032] U [2040,2056] U {3000,4095,4096,4097,5000,8192} U {2^k-1, 2^k, 2^k+1 : 16 KiB <= 2^k <= 128 KiB (thorough 1 MiB)} " +
 			"(thorough: every size 0..4200 at three positions, +-64 windows elsewhere) and all marks at once; 7 token kinds (string, raw string, embedded-string piece, comment, identifier, symbol, int) x the same lengths; " +
 			"reader chunkings: constant chunk sizes {1,2,3,5,7,64,1023,1024,1025,2047,2048,2049} and every schedule with <=1 (thorough 2) short reads among the first 6 reads, on programs of 0.5-5 KiB; oracle: AST string equals the unpadded/unchunked parse with the token text intact; " +
 			"non-trivial = padding/length >= 1000 bytes or a chunked read; distinct = distinct (program, position, kind, size) / (program, schedule)",
@@ -223,6 +223,14 @@ func sizes(thorough bool, wide bool) []int {
 		add(2040, 2056)
 	}
 	s = append(s, 3000, 4095, 4096, 4097, 5000, 8192)
+	// every power of two +-1 up to 128 KiB (thorough 1 MiB): buffer/window sizes a lexer might use
+	top := 128 << 10
+	if thorough {
+		top = 1 << 20
+	}
+	for k := 16 << 10; k <= top; k *= 2 {
+		s = append(s, k-1, k, k+1)
+	}
 	return s
 }
 
